@@ -36,6 +36,7 @@ class AORun(object):
     self.events = {}
     self.live_spy = {}
     self.live_trace = {}
+    self.deferlog = []       # ('defer' | 'recall', obj, payload uid / returned uid or None, seq), in the order the handlers made them
     self.token_queue_full_seen = False   # reach: the bounded wake-up token queue was full at a context switch
 
   # ------------------------------------------------------------ chart of an object
@@ -139,6 +140,13 @@ class AORun(object):
           src['exc'] = type(ex).__name__
         src['threads'] = [t.name for t in self.sim.threads[before:] if t.role == 'timer']
         src['end'] = self.sim.seq
+      elif op == 'defer':
+        # the event being handled is set aside (it will come back with a recall)
+        self.deferlog.append(('defer', oi, getattr(e, 'payload', None), self.sim.seq))
+        chart.defer(e)
+      elif op == 'recall':
+        r = chart.recall()
+        self.deferlog.append(('recall', oi, getattr(r, 'payload', None) if r is not None else None, self.sim.seq))
       elif op == 'cancel_events':
         # a handler cancels the timed sources of a signal (the usual way: on exit of the state that armed them)
         b = self.sim.record('ao', 'op', 'begin', ('handler', 'cancel_events'))
